@@ -55,6 +55,8 @@ def scenario(rng, i):
             st["root"] = ""
         if i % 3 == 1 and rng.random() < 0.5:
             st["verbose"] = True
+        if i % 3 == 2 and rng.random() < 0.6:
+            st["sf_rel"] = True          # typed relative to the folder the file is in, which is the working directory
         steps.append(st)
     return {"tree": tree, "steps": steps}
 
